@@ -200,7 +200,15 @@ def _str_to_set(
     if isinstance(value, str):
         return {value}
     if hasattr(value, "__iter__"):
-        return set(value)
+        try:
+            return set(value)
+        except TypeError as error:
+            # Unhashable items, such as the tables of an array of tables.
+            raise GlobalLicensingParseTypeError(
+                _(
+                    "{value} must be a string or an array of strings."
+                ).format(value=repr(value))
+            ) from error
     return {value}
 
 
